@@ -13,6 +13,7 @@ Driver commands for the `DynamicEnumMeta` / `enum_bitmask` model.
   masktb <offset> <attrs> <items> to_bitmask: attrs = `NAME=value,...` or `-`; items = `<int>` or `@<name>`,
                                    comma separated, `-` = empty list; answer: lower-case hex or `!Err`
   masktv <offset> <members> <hex> to_values over the captured members; answer: `NAME=value:R,...` / `-` / `!Err`
+  maskts <offset> <members> <hex> to_string over the captured members; answer: `=` followed by the string, or `!Err`
 -/
 namespace FeVerif
 
@@ -113,11 +114,23 @@ def cmdMaskTv (args : List String) : String :=
     | _, _, _ => "bad-args"
   | _ => "bad-args"
 
+def cmdMaskTs (args : List String) : String :=
+  match args with
+  | [off, members, mask] =>
+    match off.toInt?, dynParsePairs members, dynNatOfHex mask with
+    | some off, some ms, some mask =>
+      match maskToString off mask (ms.map fun p => ⟨p.1, p.2⟩) with
+      | .ok out => "=" ++ dynNameToString out
+      | .error e => dynShowErr e
+    | _, _, _ => "bad-args"
+  | _ => "bad-args"
+
 def dispatchDynEnum (cmd : String) (args : List String) : Option String :=
   match cmd with
   | "dynenum" => some (cmdDynEnum args)
   | "masktb" => some (cmdMaskTb args)
   | "masktv" => some (cmdMaskTv args)
+  | "maskts" => some (cmdMaskTs args)
   | _ => none
 
 end FeVerif
